@@ -13,10 +13,13 @@ import numpy as np
 # Child order of a node = increasing index, unless permuted by the builder.
 
 def random_parent_array(rng: random.Random, n: int, kind: Optional[str] = None) -> List[int]:
-    kind = kind or rng.choice(["uniform", "chain", "star", "binaryish", "caterpillar", "uniform"])
+    kind = kind or rng.choice(["uniform", "chain", "star", "binaryish", "caterpillar", "uniform", "spider"])
     par = [-1]
+    legs = rng.randint(2, 3)
     for i in range(1, n):
-        if kind == "chain":
+        if kind == "spider":          # `legs` chains hanging from the root (deep leaves in several branches)
+            par.append(0 if i <= legs else i - legs)
+        elif kind == "chain":
             par.append(i - 1)
         elif kind == "star":
             par.append(0)
